@@ -180,21 +180,20 @@ class StreamReaderWrapper(miniaudio.StreamableSource):
         if num_bytes == 0:
             return b""
 
-        # Read all data (if -1), otherwise as much as request OR space left in buffer
-        if self.buffer.position > 0 and self.buffer.size == 0:
-            return asyncio.run_coroutine_threadsafe(
-                self.reader.read(num_bytes), self.loop
-            ).result()
+        # If space left in buffer, read from source and add it there. Never read more
+        # than what fits in the buffer (or data would be dropped) and always pass data
+        # via the buffer, otherwise position (and thus seeking) gets out of sync.
+        left_in_buffer = self.buffer.remaining
+        if left_in_buffer > 0 and num_bytes != -1 and num_bytes > self.buffer.size:
+            self.buffer.add(
+                asyncio.run_coroutine_threadsafe(
+                    self.reader.read(min(num_bytes, left_in_buffer)), self.loop
+                ).result()
+            )
 
-        to_read = self.buffer.size if num_bytes == -1 else num_bytes
-        to_read = min(to_read, BUFFER_SIZE - self.buffer.size)
-
-        self.buffer.add(
-            asyncio.run_coroutine_threadsafe(
-                self.reader.read(to_read), self.loop
-            ).result()
+        to_read = (
+            self.buffer.size if num_bytes == -1 else min(num_bytes, self.buffer.size)
         )
-
         return self.buffer.get(to_read)
 
     def seek(
